@@ -77,7 +77,7 @@ type c06Case struct {
 	Slot      uint64   `json:"slot"`
 	Txp       uint64   `json:"txp"`
 	Ids       []string `json:"ids"`
-	KeyLabels []string `json:"key_labels,omitempty"` // accessnode: ok | wrong | undecodable (default ok)
+	KeyLabels []string `json:"key_labels,omitempty"` // accessnode: ok | wrong (default ok)
 
 	Signers []uint64  `json:"signers"`
 	Sigs    []sigSpec `json:"sigs"`
@@ -297,8 +297,6 @@ func (c *c06Case) message() *p2pmsg.DecryptionKeys {
 			case "wrong":
 				other := append([]byte{0xee}, id...)
 				k.Key = epochSecretKeyBytes(other)
-			case "undecodable":
-				k.Key = []byte{0xff, 0x01, 0x02}
 			default:
 				panic("key label")
 			}
@@ -564,13 +562,26 @@ func site(c *c06Case) string {
 	return c.Target
 }
 
+// violate records at most four failing cases per key (vh keeps 50 in all; one class must not
+// crowd out the others); every further one is only counted.
+var perKey = map[string]int{}
+
+func violate(run *vh.Run, v vh.Violation) {
+	perKey[v.Key]++
+	if perKey[v.Key] <= 4 {
+		run.Violate(v)
+		return
+	}
+	run.Dist["oracle_violation:"+v.Key]++
+}
+
 func oracle(run *vh.Run, c *c06Case, o observed) {
 	if o.Verdict == "panic" {
 		key := "C06:" + site(c) + ":panic"
 		if len(c.Sigs) > len(c.Signers) {
 			key = "C06:" + site(c) + ":more-signatures-than-signers-panics"
 		}
-		run.Violate(vh.Violation{Key: key, What: "the validator panicked: " + o.Err, Case: c, Observed: o, Expected: "accept or reject, never a panic"})
+		violate(run, vh.Violation{Key: key, What: "the validator panicked: " + o.Err, Case: c, Observed: o, Expected: "accept or reject, never a panic"})
 		return
 	}
 	if c.Target == "gnosis-basic" {
@@ -585,11 +596,11 @@ func oracle(run *vh.Run, c *c06Case, o observed) {
 		case len(c.Sigs) < len(c.Signers):
 			key = "C06:" + site(c) + ":fewer-signatures-than-signers-accepted"
 		}
-		run.Violate(vh.Violation{Key: key, What: "message accepted although the signature rule fails: " + why, Case: c, Observed: o, Expected: "reject"})
+		violate(run, vh.Violation{Key: key, What: "message accepted although the signature rule fails: " + why, Case: c, Observed: o, Expected: "reject"})
 		return
 	}
 	if o.Verdict == "reject" && ok && otherChecksPass(c) {
-		run.Violate(vh.Violation{Key: "C06:" + site(c) + ":rejected-although-rule-holds", What: "message with a genuine threshold of signatures rejected: " + o.Err, Case: c, Observed: o, Expected: "accept"})
+		violate(run, vh.Violation{Key: "C06:" + site(c) + ":rejected-although-rule-holds", What: "message with a genuine threshold of signatures rejected: " + o.Err, Case: c, Observed: o, Expected: "accept"})
 	}
 }
 
@@ -598,7 +609,28 @@ func oracle(run *vh.Run, c *c06Case, o observed) {
 
 var coqNames = map[string]string{} // canonical term -> name defined in the preamble
 
+// seqShape recognises a list built by mkIds (long lists are sent to Coq in compact form).
+func seqShape(ids []string) (count, width int, tag byte, ok bool) {
+	if len(ids) < 8 {
+		return
+	}
+	b, err := hex.DecodeString(ids[0])
+	if err != nil || len(b) == 0 {
+		return
+	}
+	want := mkIds(len(ids), len(b), b[0])
+	for i := range ids {
+		if ids[i] != want[i] {
+			return
+		}
+	}
+	return len(ids), len(b), b[0], true
+}
+
 func coqIds(ids []string) string {
+	if n, w, tag, ok := seqShape(ids); ok {
+		return vh.CApp("ids_seq", vh.CNat(n), vh.CNat(w), vh.CN(uint64(tag)))
+	}
 	xs := make([]string, len(ids))
 	for i, x := range ids {
 		xs[i] = `(hx "` + x + `")`
@@ -655,9 +687,17 @@ func (c *c06Case) coqMsg() string {
 	if c.Extra != "gnosis" {
 		slot, txp = 0, 0
 	}
+	allOk := true
+	for i := range c.Ids {
+		allOk = allOk && c.label(i) == "ok"
+	}
+	if n, w, tag, ok := seqShape(c.Ids); ok && allOk {
+		return vh.CApp("Build_keysmsg", vh.CN(c.Inst), vh.CN(c.Eon), extra, vh.CN(slot), vh.CN(txp),
+			vh.CApp("keys_seq", vh.CNat(n), vh.CNat(w), vh.CN(uint64(tag))))
+	}
 	keys := make([]string, len(c.Ids))
 	for i, x := range c.Ids {
-		lab := map[string]string{"ok": "KeyOk", "wrong": "KeyWrong", "undecodable": "KeyUndecodable"}[c.label(i)]
+		lab := map[string]string{"ok": "KeyOk", "wrong": "KeyWrong"}[c.label(i)]
 		keys[i] = vh.CPair(`hx "`+x+`"`, lab)
 	}
 	s := vh.CApp("Build_keysmsg", vh.CN(c.Inst), vh.CN(c.Eon), extra, vh.CN(slot), vh.CN(txp), vh.CList(keys))
@@ -1095,7 +1135,6 @@ func forced(run *vh.Run) {
 			func(c *c06Case) { c.AnMaxKeys = 1 << 63 },
 			func(c *c06Case) { c.AnNoEonKey = true },
 			func(c *c06Case) { c.KeyLabels = []string{"ok", "wrong"} },
-			func(c *c06Case) { c.KeyLabels = []string{"undecodable", "ok"} },
 			func(c *c06Case) { c.Ids[0], c.Ids[1] = c.Ids[1], c.Ids[0] },
 			func(c *c06Case) { c.Ids[1] = c.Ids[0] },
 		}
